@@ -556,9 +556,8 @@ def gen_content(rng, depth, ctx):
             c, rng.choice(['', 'border:' + _border(rng, [1, 2]), 'background:%s' % _c(rng)]),
             rng.choice(WORDS), c) for c in rng.choice([['d', 'd'], ['h', 'd', 'd'], ['d']])) for _ in range(rng.choice([1, 2, 3])))
         collapse = rng.choice(['collapse', 'separate'])
-        # a collapsed-border table with a <thead> whose rows do not fit a very small page never finishes layout (C02
-        # finding reported with the follow-up of C16): header groups only on separate-border tables
-        extra = rng.choice(['', '<caption>cap</caption>', '<thead><tr><th>H</th></tr></thead>' if collapse == 'separate' else ''])
+        # (a collapsed-border table with a <thead> on a very small page used to hang layout: F166, fixed)
+        extra = rng.choice(['', '<caption>cap</caption>', '<thead><tr><th>H</th></tr></thead>'])
         return '<table style="border-collapse:%s;%s">%s%s</table>' % (collapse, style, extra, rows)
     if r < 0.84:
         tag = rng.choice(['ul', 'ol', 'dl'])
